@@ -98,6 +98,10 @@ func exec(op string) (res string) {
 		c := parseRkn(w)
 		c.pl = pl
 		return c.run()
+	case "rkq":
+		return parseRkq(w).run()
+	case "rksz", "rkszx":
+		return execRksz(w)
 	case "rkc", "rkcx":
 		return parseRkc(w).run()
 	case "ringsort":
@@ -744,6 +748,21 @@ func main() {
 			op += " " + genPl(r, -1)
 		}
 		out.Case(op, exec(op), "randomk/long", true)
+	}
+	// component SIZES at the boundaries of the [short] length, single and composite keys, three entry points (rksz.go)
+	szn := 260
+	if tier == "thorough" {
+		szn = 1500
+	}
+	for i := 0; i < szn; i++ {
+		op, cls := genRksz(r)
+		out.Case(op, exec(op), cls, true)
+	}
+	// concurrent first uses of one statement: conducted schedules of the inflight wait (rkq.go)
+	for i := 0; i < 150*mult; i++ {
+		c, cls := genRkq(r, g)
+		op := c.op()
+		out.Case(op, exec(op), cls, true)
 	}
 	// the routing-key info cache over histories of one session (rkc.go)
 	for i := 0; i < 1500*mult; i++ {
